@@ -264,16 +264,25 @@ size_t varintRLEGetRunCount(const uint8_t *src, size_t encodedSize) {
     size_t runs = 0;
 
     while (ptr < end) {
-        size_t runLen;
+        /* Both varints of a run must lie inside the declared size */
+        const size_t remaining = (size_t)(end - ptr);
+        uint64_t runLen;
         uint64_t value;
-        size_t consumed = varintRLEDecodeRun(ptr, &runLen, &value);
+        const varintWidth lenWidth =
+            varintTaggedGet(ptr, remaining > 9 ? 9 : (int32_t)remaining, &runLen);
+        if (lenWidth == 0 || runLen == 0) {
+            break;
+        }
 
-        if (runLen == 0 || consumed == 0) {
+        const size_t left = remaining - lenWidth;
+        const varintWidth valWidth = varintTaggedGet(
+            ptr + lenWidth, left > 9 ? 9 : (int32_t)left, &value);
+        if (valWidth == 0) {
             break;
         }
 
         runs++;
-        ptr += consumed;
+        ptr += lenWidth + valWidth;
     }
 
     return runs;
